@@ -147,6 +147,7 @@ fn _param_list_openqasm(p: &mut Parser<'_>, flavor: DefFlavor) {
 
     // Parse items until EOF or an end token is seen.
     while !p.at(EOF) && !at_list_end_token(p, flavor) {
+        let pos_before_item = p.position();
         let m = p.start();
 
         let inner_array_literal = p.at(T!['{']);
@@ -192,6 +193,11 @@ fn _param_list_openqasm(p: &mut Parser<'_>, flavor: DefFlavor) {
             }
         };
         if !found_param {
+            break;
+        }
+        // An item parser that consumed nothing has already logged an error. Stop here,
+        // otherwise this loop never terminates (e.g. `def f(3)`).
+        if p.position() == pos_before_item {
             break;
         }
         num_params += 1;
